@@ -115,8 +115,9 @@ class TagLibrary:
             If a tag_name that already exists is used.
         """
 
-        # Check for duplicates
-        if tag_name in self.__dict__:
+        # Check for duplicates. The names of the library's own attributes and methods count as taken:
+        # storing one of them as a tag would shadow (and break) the library's own operations.
+        if tag_name in self.__dict__ or (isinstance(tag_name, str) and hasattr(type(self), tag_name)):
             raise DuplicateTagError(tag_name)
         else:
             self.__dict__[tag_name] = self._tag_counter
@@ -220,6 +221,9 @@ def add_tag(tag_name: str):
     DuplicateTagError
         If a tag_name that already exists is used.
     """
+    # A name that is already an attribute of this module could never be looked up as ``Tags.<name>``.
+    if tag_name in globals():
+        raise DuplicateTagError(tag_name)
     _module_library.add_tag(tag_name)
 
 
